@@ -246,6 +246,18 @@ def forms_program():
     )
     F.append(
         fn(
+            "forstar",
+            ["p"],
+            [
+                ["bind", "tot", V],
+                ["for", ["t", ["a", ["*", "rest"], "c"]],
+                 [use("a", "rest", "c"), ["bind", "tot", ["add", var("tot"), var("a")]]], []],
+                ["ret", var("tot")],
+            ],
+        )
+    )
+    F.append(
+        fn(
             "nestloop",
             ["p"],
             [
@@ -337,6 +349,18 @@ def forms_program():
                 ["with", "w", [use("w"), ["bind", "x", V], ["pt"], ["if", [["raise"]], []]]],
                 ["with", None, [["bind", "y", V]]],
                 ["ret", var("p")],
+            ],
+        )
+    )
+    F.append(
+        fn(
+            # the body ends in a with-block that ends in return: if the context manager swallows an
+            # exception raised inside, the function falls off its end after all
+            "withret",
+            ["p"],
+            [
+                ["bind", "x", V],
+                ["with", "w", [["if", [["raise"]], []], ["with", None, [["if", [["raise"]], []], ["bind", "y", V], ["ret", var("y")]]]]],
             ],
         )
     )
